@@ -244,7 +244,7 @@ def build_conv_burst(dwm, dws, depth_s, K):
     return h
 
 
-def build_cache(cachesize, dwm, dws, depth_s, K, reverse=True, anyslave=False):
+def build_cache(cachesize, dwm, dws, depth_s, K, reverse=True, anyslave=False, tie_init=True):
     from litex.soc.interconnect import wishbone
     top = Top()
     if anyslave:
@@ -271,6 +271,34 @@ def build_cache(cachesize, dwm, dws, depth_s, K, reverse=True, anyslave=False):
           K=K, funcs=FUNCS, cfg=dict(cachesize=cachesize, master_width=dwm, slave_width=dws, slave_depth=depth_s, reverse=reverse, slave="symbolic latency >= 0" if anyslave else "wishbone.SRAM"),
           show=mm.showl + [sbus.cyc, sbus.stb, sbus.we, sbus.adr, sbus.ack], vcycles=30, timeout_s=2400)
     h.init_free = list(sram.words) if anyslave else "mem:backing"
+    if tie_init and not anyslave and dws >= dwm:
+        # first read of a byte nobody has written yet must return the INITIAL content of the backing memory (symbolic), not whatever the
+        # cache line happens to hold: the shadow starts "known" with the byte of the backing store at frame 0
+        ratio = dws // dwm
+        nbm = dwm // 8
+        mm.known.reset.value = 1            # known from the start ...
+        h.init_free_extra = [mm.sh]         # ... with a free initial value tied to the initial memory below
+
+        def extra(U, mm=mm, ratio=ratio, nbm=nbm, reverse=reverse):
+            tr = U.tr
+            words = None
+            for mem, arr in tr.mem_arrays.items():
+                if mem.name_override == "backing":
+                    words = arr
+            f0 = U.frames[0]
+            A, L = f0[mm.A], f0[mm.L]
+            cons = []
+            alts = []
+            for a in range(depth_m):
+                sw = a // ratio
+                sub = a % ratio
+                if reverse:
+                    sub = ratio - 1 - sub
+                for l in range(nbm):
+                    lo = 8 * (sub * nbm + l)
+                    alts.append(z3.Implies(z3.And(A == a, L == l), f0[mm.sh] == z3.Extract(lo + 7, lo, f0[words[sw]])))
+            return alts
+        h.extra = extra
     return h
 
 
@@ -278,7 +306,7 @@ def build_cache_warm(cachesize, depth_s, K):
     """same-width cache started from an ARBITRARY coherent cache content (symbolic tag/data/backing memories constrained by the
     coherence invariant: clean line => cached data = backing data, tags within the address range) instead of the reset state:
     reaches dirty-eviction/refill interactions within a short horizon"""
-    h = build_cache(cachesize, 8, 8, depth_s, K)
+    h = build_cache(cachesize, 8, 8, depth_s, K, tie_init=False)
     h.name = "warmcache%d_8to8" % cachesize
     h.init_free = "mem:*"
     linebits = log2_int(cachesize)
